@@ -10,7 +10,7 @@
 use std::sync::atomic::{AtomicBool, AtomicU32, AtomicU64, Ordering};
 use std::time::{SystemTime, UNIX_EPOCH};
 
-pub const LOAD_DEADLINE_MS: u64 = 25_000;
+pub const LOAD_DEADLINE_MS: u64 = 15_000;
 pub const LIVE_LIMIT: usize = 6 << 30;
 
 static CODE: AtomicU32 = AtomicU32::new(0);
@@ -66,7 +66,7 @@ pub fn install() {
 pub fn explain_exit(code: i32) -> String {
     let (what, c) = match code {
         100..=139 => ("abort (SIGABRT: stack overflow guard, allocation failure or explicit abort)", code - 100),
-        140..=179 => ("hang (one load exceeded 25 s)", code - 140),
+        140..=179 => ("hang (one load exceeded 15 s)", code - 140),
         180..=219 => ("memory (live heap exceeded 6 GiB during one load)", code - 180),
         _ => return format!("exit code {}", code),
     };
